@@ -2,7 +2,7 @@
    graph  = ((node...) (edge...)), node = (id label type ((key w)...) (wild...)),
             edge = (from to type tupleset (cond...) ((key w)...) (wild...))
    result = (0 graph) | (1 class msg) ; class 0 invalid model, 1 model cycle, 2 tuple cycle, 3 constraint tuple cycle, 5 out of fuel *)
-From Verif Require Import Base.Str Base.Sx Base.Outcome Model.Ast Model.WGraph Model.WWeights Model.WireModel.
+From Verif Require Import Base.Str Base.Sx Base.Outcome Model.Ast Model.WGraph Model.WWeights Model.PGraph Model.WireModel.
 
 Definition sx_ntype (t : ntype) : sx := SA (match t with NType => 0 | NTypeRel => 1 | NOperator => 2 | NWildcard => 3 end).
 Definition sx_etype (t : etype) : sx := SA (match t with EDirect => 0 | ERewrite => 1 | ETTU => 2 | EComputed => 3 end).
@@ -31,8 +31,24 @@ Definition sx_gresult (r : outcome wgraph werr) : sx :=
   | Panic w => SL [SA 3; sx_str w]
   end.
 
+(* plain graph: (listobjects ((id label type)...) ((from to type tupleset)...)) with the lines in DOT order *)
+Definition sx_pgraph (g : pgraph) : sx :=
+  SL [sx_bool (pg_listobjects g);
+      sx_list (fun n => SL [sx_nat (pn_id n); sx_str (pn_label n); sx_ntype (pn_type n)]) (pg_nodes g);
+      sx_list (fun l => SL [sx_nat (pl_from l); sx_nat (pl_to l); sx_etype (pl_type l); sx_str (pl_tupleset l)]) (dot_lines g)].
+Fixpoint iter_rev (k : nat) (g : pgraph) : pgraph := match k with O => g | S k' => iter_rev k' (reversed g) end.
+Definition sx_obool2 (o : option bool) : sx := match o with None => SA 2 | Some true => SA 1 | Some false => SA 0 end.
+
 Definition dispatch_graph (op : N) (args : list sx) : option sx :=
   match op, args with
+  | 600, [SA k; m] => option_map (fun m => sx_pgraph (iter_rev (N.to_nat k) (pbuild m))) (un_model m)
+  | 602, [SA k; m; labels] =>
+      match un_model m, un_listof un_str labels with
+      | Some m, Some ls =>
+          let g := iter_rev (N.to_nat k) (pbuild m) in
+          Some (sx_list (fun a => sx_list (fun b => sx_obool2 (path_exists g a b)) ls) ls)
+      | _, _ => None
+      end
   | 500, [m] => option_map (fun m => sx_gresult (wbuild m)) (un_model m)
   | 501, [o; m] =>
       match un_opt (un_listof un_str) o, un_model m with
